@@ -85,6 +85,16 @@ CLAIMED = {
          "Every (network, entry point, text): checksummed Base58 with each prefix and near-miss x boundary payload lengths x shaped payloads (WIF/extended-key contents in and out of range), bech32 grid with own/near/foreign HRPs, colon and numeric forms, junk/unicode/long strings: never raises; returned objects re-serialise and re-parse equal; wrong-length/out-of-range payloads refused; kinds kept apart. "
          "Mode S: all ordered pairs of entry points on one shared parseable_str vs a fresh str.",
          "Trusted: vf/ref/addr.py. Two recorded known findings (version/key mismatch of extended keys; disassembly of undefined opcodes)."),
+
+ "C11": ("exhaustive small strings / boundary grids on the real codecs + exhaustive weight<=4 decision on a linear syndrome model extracted from and bound to the real bech32_polymod",
+         "Base58: ALL byte strings of length <=2, lengths 3..80 x every leading-zero count x tails; all strings <=3 characters over the alphabet and outside it. Base58Check: payload lengths x contents: valid string, all 4x255 checksum-byte corruptions, all single-character substitutions (accept iff recomputed checksum matches). "
+         "Bech32/Bech32m: hrp x version 0..16(+17,31) x program length 0..42 x constant x padding x case (every single-character case flip): acceptance = BIP173/BIP350, encode o decode = id. Error detection: every 1- and 2-position substitution of valid addresses on the real decoder; for every data-part length 8..90 the per-(position,symbol) syndrome table is read off the REAL polymod, "
+         "additivity verified exhaustively for weight 1 and 2, and the table is searched exhaustively (meet in the middle) for zero-syndrome patterns of weight <=4; cross-constant patterns that are themselves valid encodings are fed to both decoders.",
+         "Trusted: vf/ref/base58.py, bech32.py (BIP vectors). Model assumption recorded in evidence: the real polymod is GF(2)-affine on inputs of weight >=3 as it is on all inputs of weight <=2 (checked) and on every enumerated string."),
+ "C12": ("exhaustive enumeration of integers, candidate encodings, push lengths, truncations and short scripts vs CScriptNum / CheckMinimalPush references",
+         "Every integer |v|<2^17 and +-2^k+d up to 2^72: encode = unique minimal form, decode o encode = id. ALL byte strings of length <=2 (+3/4-byte families, boundary forms) as candidate encodings: require_minimal accepts exactly the minimal forms. Every data length 0..600, 65534..65537, 70000 and all 256 one-byte payloads: compile_push_data = shortest push, read back identically, accepted by the consensus minimal-push rule; "
+         "EVERY proper prefix of every push encoding is reported malformed; every byte string of the bound as an instruction stream; compile(disassemble(s)) = s for all scripts of <=3 tokens over named opcodes and boundary pushes.",
+         "Trusted: vf/ref/scriptnum.py (Core CScriptNum / CheckMinimalPush semantics, vectors from the repo tests)."),
 }
 NOT_YET = "check not built yet (work in progress; see DESIGN.md section 5 for the planned exploration)"
 
